@@ -1,5 +1,6 @@
 """C12 — ordering comparisons agree with the natural order."""
 import json, random, struct
+import re
 import vlib, opsuite
 from gen import opgen
 from props.c09 import lattice, fbits, FLOATS
@@ -120,6 +121,19 @@ def run(ctx):
             for x, y in (same if ctx.tier == 'thorough' else rnd.sample(same, 600)):
                 for st in opgen.STORES:
                     add(st, rnd.choice(CMP), x, y)
+        # slices that reach the end of their list, under every pair of start offsets, on texts that differ late: the deciding
+        # element is the second or a later one of each selected text and sits at different positions of the two lists
+        late = [[120, 97, 98, 122], [97, 98, 121], [97, 98, 122], [121, 120, 97, 98, 121, 99], [97, 98], [98, 98, 97, 98, 120]]
+        for kind in ('cl', 'bl'):
+            for ta_ in late:
+                for tb_ in late:
+                    for s1 in range(len(ta_)):
+                        for s2 in range(len(tb_)):
+                            if ctx.tier == 'quick' and rnd.random() < 0.5:
+                                continue
+                            x = f"(sl ({kind}{''.join(f' {c}' for c in ta_)}) (r (i {s1}) (i {len(ta_) - 1 + rnd.choice((0, 0, 2))})))"
+                            y = f"(sl ({kind}{''.join(f' {c}' for c in tb_)}) (r (i {s2}) (i {len(tb_) - 1 + rnd.choice((0, 0, 2))})))"
+                            add(rnd.choice(opgen.STORES), rnd.choice(CMP), x, y)
         # every cross-type pair (complete type matrix with all representatives)
         for instr in CMP:
             for lt in opgen.TYPES:
@@ -132,6 +146,8 @@ def run(ctx):
     if not h_ok:
         return
     rows = opsuite.run(cases, 'c12', drv_ok)
+    SL_RE = re.compile(r'^\(sl \((cl|bl)((?: \d+)*)\) \(r \(i (\d+)\) \(i (\d+)\)\)\)$')
+    nslice_nat = [0]
     dis = 0
     kinds = {}
     for c, ri, rm, skip in rows:
@@ -149,6 +165,24 @@ def run(ctx):
             if pi['top'] != 'F' or pi['regs'] != 1:
                 ctx.fail('oracle', c, impl=ri, model=rm, expect='ok F regs=1', note='slices of different kinds of value are not ordered: all four comparisons yield false')
                 continue
+        if is_slice:
+            # two slices of texts / byte lists that both reach the end of their list and whose selected texts differ at a
+            # position inside both: the deciding element is the same whatever the offsets, so the natural order of the selected
+            # texts must come out (equal tails and ends inside the list are the part the code orders differently: Props/C12)
+            ma, mb = SL_RE.match(a), SL_RE.match(b)
+            if ma and mb and ma.group(1) == mb.group(1):
+                xa, xb = [int(x) for x in ma.group(2).split()], [int(x) for x in mb.group(2).split()]
+                sa, ea, sb, eb = int(ma.group(3)), int(ma.group(4)), int(mb.group(3)), int(mb.group(4))
+                if sa < len(xa) and sb < len(xb) and ea >= len(xa) - 1 and eb >= len(xb) - 1:
+                    ta, tb = xa[sa:], xb[sb:]
+                    d = next((i for i in range(min(len(ta), len(tb))) if ta[i] != tb[i]), None)
+                    if d is not None:
+                        lt = ta[d] < tb[d]
+                        want = {'LessThan': lt, 'LessThanOrEqual': lt, 'GreaterThan': not lt, 'GreaterThanOrEqual': not lt}[c[3]]
+                        nslice_nat[0] += 1
+                        if pi['top'] != ('T' if want else 'F') or pi['regs'] != 1:
+                            ctx.fail('oracle', c, impl=ri, model=rm, expect=f"ok {'T' if want else 'F'} regs=1", note=f'slices selecting {ta} and {tb} (first difference at element {d}) are not ordered by that element')
+                            continue
         if not is_slice and (pi['top'] != exp or pi['regs'] != 1 or pi['log']):
             ctx.fail('oracle', c, impl=ri, model=rm, expect=f'ok {exp} regs=1 log=', note='comparison result differs from the natural order / false on foreign pairs')
             continue
@@ -191,7 +225,7 @@ def run(ctx):
     ctx.rule = ('OP cases (instr, A, B) for the four comparison instructions: numeric boundary lattice + float lattice + int/float neighbours (all pairs), all pairs of strings of length <= 3 over '
                 '{a, b, é} as char lists (both stores) and byte lists, chars and bytes, random longer multi-byte strings incl. proper prefixes, and the complete cross-type matrix (19 types, all representatives, both stores); '
                 'each checked against an independent Python oracle (exact int/float comparison, lexicographic lists) and against the Lean model; distinct = distinct (instr, A, B).')
-    ctx.suites = dict(ctx.suites or {}, **{'OP.cmp': len(cases)})
+    ctx.suites = dict(ctx.suites or {}, **{'OP.cmp': len(cases), 'slice pairs checked against the natural order of the selected texts': nslice_nat[0]})
     ctx.distribution = {'result_top': {str(k): v for k, v in kinds.items()}}
     for c, ri, rm, skip in rows[:: max(1, len(rows) // 6)][:6]:
         ctx.sample({'case': c[2:], 'impl': ri, 'model': rm}, cap=80)
